@@ -157,7 +157,7 @@ Definition conn_set (d : data) (s : scenario) : connset :=
 
 (* lookups with the source's range guards (connection_set.cpp:11-29); None = operator[] past the end *)
 Definition fwd_entry (s : connset) (hour : Z) : option nat :=
-  if (hour >? END_HOUR) || (hour <? BEGIN_HOUR) then Some (length (cs_fwd s))
+  if (hour >=? END_HOUR) || (hour <? BEGIN_HOUR) then Some (length (cs_fwd s))
   else nth_error (cs_fidx s) (Z.to_nat hour).
 Definition rev_entry (s : connset) (hour : Z) : option nat :=
   if hour <? BEGIN_HOUR then Some (length (cs_rev s))
